@@ -448,9 +448,9 @@ pub fn run(tier: &str) -> i32 {
         run_space(&Combo { n: 2, curated: false }, None, &caps, &rep);
         run_space(&Mutate, None, &caps, &rep);
         run_space(&Soup { min_len: 0, max_len_a1: 2, max_len_a2: 1, core: false }, None, &caps, &rep);
+        // order: the bounded triple space first, the largest product last (a wall cap, if hit, is reported per space)
+        run_space(&Combo { n: 3, curated: true }, Some(5), &caps, &rep);
         run_space(&Soup { min_len: 3, max_len_a1: 3, max_len_a2: 0, core: true }, None, &caps, &rep);
-        run_space(&Soup { min_len: 2, max_len_a1: 0, max_len_a2: 2, core: true }, None, &caps, &rep);
-        run_space(&Combo { n: 3, curated: true }, None, &caps, &rep);
     }
     rep.finish()
 }
